@@ -606,3 +606,79 @@ Proof.
   - destruct (b_kind x); [constructor|]. rewrite Hc. constructor; [|constructor]. cbn [fst snd].
     split; [|exact Hv]. unfold iat_validate. now rewrite Hv, Hs, Hl, Hi.
 Qed.
+
+(* ------------------------------------------------------------------ survivors, in terms of the Create predicates *)
+
+Section Survive.
+Variables (A : Arith.tables) (T : Offsets.otable) (TT : BuildIAT.ttable).
+Hypothesis Hguard : BuildIAT.tt_adv_iat_guard TT = true.
+Variables (hd : bytes -> hdrp) (sp : bytes -> stdp) (ip : bytes -> ipay) (ap : bytes -> apay).
+
+Local Notation addall := (add_all A T TT hd sp ip ap).
+
+(* AddToFile on one more batch adds at most one batch to f.Batches or f.IATBatches *)
+Lemma add_all_cons_cases b r :
+  addall (b :: r) = addall r
+  \/ (exists s, addall (b :: r) = (s :: fst (addall r), snd (addall r)))
+  \/ (exists i, addall (b :: r) = (fst (addall r), i :: snd (addall r))).
+Proof.
+  cbn [add_all]. destruct (addall r) as [ss ibs]. cbn [fst snd].
+  destruct (b_kind b).
+  - destruct (hd_adv (hd (b_sig b))).
+    + destruct (create_adv TT hd ap b); [right; left; eexists; reflexivity|now left].
+    + destruct (create_std A T hd sp b); [right; left; eexists; reflexivity|now left].
+  - destruct (create_iat TT hd ip b); [right; right; eexists; reflexivity|now left].
+Qed.
+
+Lemma add_all_mono b r :
+  (n_adv (fst (addall r)) <= n_adv (fst (addall (b :: r))))%nat /\
+  (n_std (fst (addall r)) <= n_std (fst (addall (b :: r))))%nat /\
+  (length (snd (addall r)) <= length (snd (addall (b :: r))))%nat.
+Proof.
+  destruct (add_all_cons_cases b r) as [E|[(s & E)|(i & E)]]; rewrite E; cbn [fst snd length]; unfold n_adv, n_std; cbn [filter].
+  - lia.
+  - destruct (sb_is_adv s); cbn [negb length]; lia.
+  - lia.
+Qed.
+
+(* a consolidated batch whose Create succeeds survives AddToFile, by kind *)
+Lemma survives_adv l x : In x l -> created_a TT hd ap x -> n_adv (fst (addall l)) <> 0%nat.
+Proof.
+  induction l as [|b r IH]; intros Hin Hx; [destruct Hin|]. destruct Hin as [->|Hin].
+  - destruct Hx as (Hk & Hadv & a' & Hc). cbn [add_all]. destruct (addall r) as [ss ibs].
+    rewrite Hk, Hadv, Hc. cbn [fst]. unfold n_adv. cbn [filter sb_is_adv length]. discriminate.
+  - specialize (IH Hin Hx). destruct (add_all_mono b r) as (M & _). lia.
+Qed.
+
+Lemma survives_std l x : In x l -> created A T hd sp x -> n_std (fst (addall l)) <> 0%nat.
+Proof.
+  induction l as [|b r IH]; intros Hin Hx; [destruct Hin|]. destruct Hin as [->|Hin].
+  - destruct Hx as (Hk & Hadv & b' & Hc & _). cbn [add_all]. destruct (addall r) as [ss ibs].
+    rewrite Hk, Hadv, Hc. cbn [fst]. unfold n_std. cbn [filter sb_is_adv negb length]. discriminate.
+  - specialize (IH Hin Hx). destruct (add_all_mono b r) as (_ & M & _). lia.
+Qed.
+
+Lemma survives_iat l x : In x l -> b_kind x = Flatten.KIAT -> create_iat TT hd ip x <> None -> snd (addall l) <> [].
+Proof.
+  induction l as [|b r IH]; intros Hin Hk Hx; [destruct Hin|]. destruct Hin as [->|Hin].
+  - cbn [add_all]. destruct (addall r) as [ss ibs]. rewrite Hk.
+    destruct (create_iat TT hd ip x); [cbn [snd]; discriminate|congruence].
+  - specialize (IH Hin Hk Hx). destruct (add_all_mono b r) as (_ & _ & M).
+    destruct (snd (addall r)); [congruence|]. destruct (snd (addall (b :: r))); [cbn [length] in M; lia|discriminate].
+Qed.
+
+(* FlattenBatches on ANY input: if among the batches handed to AddToFile an ADV batch passes its Create
+   and a standard batch (or an IAT batch) passes its Create, File.Create refuses the new file *)
+Theorem mixed_adv_created inf all x y :
+  In x (pre all) -> created_a TT hd ap x ->
+  In y (pre all) -> (created A T hd sp y \/ (b_kind y = Flatten.KIAT /\ create_iat TT hd ip y <> None)) ->
+  fst (finish A T TT hd sp ip ap inf all) = FErrCreate.
+Proof.
+  intros Hx Cx Hy Cy. apply (finish_mixed_adv_error A T TT Hguard); unfold survivors; fold (pre all).
+  - exact (survives_adv _ x Hx Cx).
+  - destruct Cy as [Cy|(Ky & Cy)].
+    + pose proof (survives_std _ y Hy Cy). lia.
+    + pose proof (survives_iat _ y Hy Ky Cy) as H. destruct (snd (addall (pre all))); [congruence|cbn [length]; lia].
+Qed.
+
+End Survive.
